@@ -2,6 +2,7 @@
 # usage: tools/try_seed.sh <patch.diff> <PROP> [tier]   - runs a check against a scratch worktree with the patch
 # applied (never touches /repo). Output under /tmp/mutout/<name>/.
 set -u
+exec 9>/tmp/mut.lock; flock 9   # one mutant run at a time (shared scratch worktree and build dir)
 PATCH=$(readlink -f "$1"); PROP=$2; TIER=${3:-quick}
 WT=${MUT_WT:-/tmp/mut}
 if [ ! -d "$WT" ]; then git -C /repo worktree add --detach "$WT" HEAD >/dev/null 2>&1; fi
